@@ -10,6 +10,7 @@ from __future__ import annotations
 
 import dataclasses
 import random
+import re
 import subprocess
 import time
 
@@ -81,6 +82,25 @@ def plan(tier, seed):
 
 def comparable_headers(record):
     return sorted((k.lower(), v) for k, v in record["headers"] if k.lower() not in IGNORED)
+
+
+def multipart_view(record):
+    """None for a non-multipart request, else {"parts": [(part headers, content)]} read with the announced boundary."""
+    content_type = next((v for k, v in record["headers"] if k.lower() == "content-type"), "")
+    if not content_type.lower().startswith("multipart/"):
+        return None
+    match = re.search(r'boundary="?([^";]+)"?', content_type)
+    if not match:
+        return {"error": "no boundary parameter"}
+    delimiter = "--" + match.group(1)
+    sections = record["body"].split(delimiter)
+    if len(sections) < 2 or not sections[-1].lstrip("\r\n").startswith("--"):
+        return {"error": f"body does not use the announced boundary {match.group(1)[:12]}..."}
+    parts = []
+    for section in sections[1:-1]:
+        head, _, content = section.partition("\r\n\r\n")
+        parts.append((sorted(line.strip().lower() for line in head.strip().splitlines()), content[:-2] if content.endswith("\r\n") else content))
+    return {"parts": parts}
 
 
 def classify(case_desc, a, b, field):
@@ -208,6 +228,17 @@ def run_shard(spec, emit):
                 emit.viol("C09/method-differs", f"{a['method']} vs {b['method']}", context)
             if a["raw_path"] != b["raw_path"]:
                 emit.viol("C09/url-differs", f"{a['raw_path'][:100]} vs {b['raw_path'][:100]}", context)
+            # a multipart message is the same message under another boundary token as long as each request announces the
+            # boundary its own body uses: both sides are read with their announced boundary and compared part by part
+            ma, mb = multipart_view(a), multipart_view(b)
+            if ma is not None or mb is not None:
+                emit.count("multipart_pairs")
+                if ma is None or mb is None or "error" in ma or "error" in mb:
+                    emit.viol("C09/multipart-not-readable-with-announced-boundary", f"original: {str(ma)[:120]} | reproduced: {str(mb)[:120]}", context)
+                elif ma["parts"] != mb["parts"]:
+                    emit.viol("C09/multipart-parts-differ", f"{ma['parts']!r:.150} vs {mb['parts']!r:.150}", context)
+                a = dict(a, body="", headers=[(k, re.sub(r"boundary=[^;]+", "boundary=B", v) if k.lower() == "content-type" else v) for k, v in a["headers"]])
+                b = dict(b, body="", headers=[(k, re.sub(r"boundary=[^;]+", "boundary=B", v) if k.lower() == "content-type" else v) for k, v in b["headers"]])
             if a["body"] != b["body"]:
                 emit.viol(classify(desc, a, b, "body"), f"{a['body'][:100]!r} vs {b['body'][:100]!r}", context)
             if comparable_headers(a) != comparable_headers(b):
